@@ -467,7 +467,62 @@ def check(ctx):
     _offsets(rep, model)
     _wiring(rep, model)
     _nd(rep, model, ctx.tier == 'thorough')
+    _range_check(rep, model)
     return rep
+
+
+def _range_check(rep, model):
+    """R4c: `ResizingOperator(domain, range)` accepts an explicitly given
+    range only when its cells have the sides of the domain's cells in every
+    axis, resized or not (the operator copies array entries; the adjoint is
+    the transposed copy only between equal cells): a range with equal cell
+    sides is accepted, one with another cell side in any axis is refused
+    with ValueError."""
+    from ..spacemodel import SMInterp, NSpace
+    from .c05b import H5
+    ci = model.get('ResizingOperator')
+    if ci is None:
+        raise AnalysisError('anchor vanished: ResizingOperator')
+    h0, h1, k = Rat.var('h0'), Rat.var('h1'), Rat.var('k')
+
+    def sp(shape, sides):
+        s_ = NSpace(shape, 'float64', sides[0] * sides[1],
+                    cell_sides=list(sides))
+        s_.resize_offset = (0, 0)
+        return s_
+    n = 0
+    for what, rshape, rsides, ok in (
+            ('equal cells, first axis resized', (8, 4), (h0, h1), True),
+            ('another cell side in the resized axis', (8, 4), (k, h1), False),
+            ('another cell side in the axis that keeps its size', (8, 4),
+             (h0, k), False),
+            ('another cell side, no axis resized', (4, 4), (h0, k), False)):
+        n += 1
+        cons = 'ResizingOperator(domain, range)[%s]' % what
+        try:
+            H = H5()
+            H.signs.positive.add('k')
+            I = SMInterp(model, {}, H)
+            try:
+                I.instantiate(ci, [sp((4, 4), (h0, h1)),
+                                   sp(rshape, rsides)], {})
+                raised = None
+            except PyRaise as e:
+                raised = e.name
+            if ok and raised:
+                rep.violation('R4c', cons, 'a matching range is refused '
+                              'with %s' % raised, DOPS, ci.node.lineno)
+            elif not ok and raised != 'ValueError':
+                rep.violation('R4c', cons, 'the range is %s' % (
+                    'accepted: domain and range cells differ, the adjoint '
+                    '(a transposed copy) is not the adjoint between them'
+                    if raised is None else 'refused with %s' % raised),
+                    DOPS, ci.node.lineno)
+            else:
+                rep.holds('R4c', cons, 'accepted' if ok else 'ValueError')
+        except (Undecided, Fork) as e:
+            rep.undecided('R4c', cons, str(e), DOPS, ci.node.lineno)
+    rep.floor('R4c', 'explicit-range configurations', n, 4)
 
 
 def _show(M):
